@@ -14,13 +14,19 @@ for d in sorted(glob.glob(os.path.join(src, "r*"))):
         if r.returncode != 0:
             print(os.path.basename(d), "PATCH-DOES-NOT-APPLY"); continue
         alarms = []
-        for p in props:
+        def one(p):
+            out = []
             r = subprocess.run(f"/verif/bin/gicheck -property {p} -repo {wt} -verif /tmp/seedtest-verif", shell=True, capture_output=True, text=True)
             for l in r.stdout.splitlines():
                 if l.startswith(("VIOLATED", "UNDECIDED")):
-                    alarms.append(p + " " + l[:260])
+                    out.append(p + " " + l[:260])
             if r.returncode not in (0, 1):
-                alarms.append(f"{p} exit {r.returncode}: {r.stderr[-200:]}")
+                out.append(f"{p} exit {r.returncode}: {r.stderr[-200:]}")
+            return out
+        from concurrent.futures import ThreadPoolExecutor
+        with ThreadPoolExecutor(int(os.environ.get("JOBS", "6"))) as ex:
+            for res in ex.map(one, props):
+                alarms += res
         print(os.path.basename(d), "SILENT" if not alarms else "ALARMS(%d)" % len(alarms))
         for a in alarms[:8]: print("    ", a)
     finally:
